@@ -397,6 +397,14 @@ func runDeadline(c *Ctx) {
 				n++
 			}
 		}
+		// a client whose default read/write timeout is disabled (negative ConnWriteTimeout): the context deadline is
+		// then the only deadline the synchronous path can put on the connection
+		for _, kind := range []string{"do-nowt", "multi-nowt"} {
+			for _, mode := range []string{"deadline", "done"} {
+				deadlineEpisode(c, n, kind, mode, always)
+				n++
+			}
+		}
 		// waiting in a retry back-off (2 s) after a retryable error reply: cancellation must end the wait, also when
 		// the context carries a (far) deadline as well
 		for _, kind := range []string{"retrywait", "retrywaitmulti"} {
@@ -422,6 +430,11 @@ func deadlineEpisode(c *Ctx, n int, kind, mode string, always bool) {
 	dopt := rueidis.ClientOption{
 		InitAddress: []string{"tagsrv:6379"}, DialCtxFn: srv.Dial, ForceSingleClient: true, DisableRetry: true,
 		PipelineMultiplex: -1, AlwaysPipelining: always, BlockingPoolSize: 1, ConnWriteTimeout: 10 * time.Second,
+	}
+	label := kind
+	if strings.HasSuffix(kind, "-nowt") {
+		dopt.ConnWriteTimeout = -1
+		kind = strings.TrimSuffix(kind, "-nowt")
 	}
 	if strings.HasPrefix(kind, "retrywait") {
 		dopt.DisableRetry = false
@@ -521,8 +534,8 @@ func deadlineEpisode(c *Ctx, n int, kind, mode string, always bool) {
 	// "shortly after": generous bound of 1s over the deadline (wall-clock, exploration evidence)
 	prompt := returned && took < limit+time.Second
 	ctxErr := returned && e != nil && (errors.Is(e, context.DeadlineExceeded) || errors.Is(e, context.Canceled))
-	op := fmt.Sprintf("!deadline %s %s %s %s %s %s", kind, mode, b01(returned), b01(prompt), b01(ctxErr), b01(sent == 0))
-	c.Hit(fmt.Sprintf("deadline:%s:%s", kind, mode))
+	op := fmt.Sprintf("!deadline %s %s %s %s %s %s", label, mode, b01(returned), b01(prompt), b01(ctxErr), b01(sent == 0))
+	c.Hit(fmt.Sprintf("deadline:%s:%s", label, mode))
 	if returned && !ctxErr {
 		c.Hit(fmt.Sprintf("deadline:%s:%s:err=%v", kind, mode, e))
 	}
